@@ -241,7 +241,29 @@ func runExec(args []string) {
 			mgr = server.NewManager(config.Configures)
 			dead = false
 			fmt.Fprintf(out, "%s\n", line)
+		case "A":
+			// align to a wall-clock millisecond offset within the second (next occurrence): used by the TTL batches
+			want, _ := strconv.Atoi(f[1])
+			now := time.Now()
+			cur := int(now.UnixMilli() % 1000)
+			wait := want - cur
+			if wait <= 0 {
+				wait += 1000
+			}
+			time.Sleep(time.Duration(wait) * time.Millisecond)
+			fmt.Fprintf(out, "%s\n", line)
 		case "X":
+			// "@now+N" arguments are replaced by the decimal unix time + N (the echoed line carries the substituted value)
+			for i := 2; i < len(f); i++ {
+				a := string(unhex(f[i]))
+				if strings.HasPrefix(a, "@now") {
+					n, err := strconv.ParseInt(a[4:], 10, 64)
+					if err == nil {
+						f[i] = hx([]byte(strconv.FormatInt(time.Now().Unix()+n, 10)))
+					}
+				}
+			}
+			line = strings.Join(f, " ")
 			if mgr == nil || dead {
 				fmt.Fprintf(out, "%s => SKIP\n", line)
 				continue
